@@ -9,8 +9,7 @@
  "enforce_rec": ["ind_punch"],
  "replace": ["check_zero_block"],
  "loop_contracts": true,
- "unwindset": {"c09_all_zero_1k.0": 257},
- "unwind_reason": "c09_all_zero_1k is the SPEC's all-zero test of a 1 KiB block: 256 words, constant; the real slot loop of ind_punch is closed by its in-place loop contract (anchor VERIF_INV_IND_PUNCH), the recursion by the contract itself (--enforce-contract-rec)",
+ "unwind_reason": "no unwinding: the real slot loop of ind_punch is closed by its in-place loop contract (anchor VERIF_INV_IND_PUNCH), the recursion by the contract itself (--enforce-contract-rec)",
  "functions": ["lib/ext2fs/punch.c:ind_punch"],
  "assumes": ["this unit: level == 0 and max == 12 (the 12 direct slots of i_block); the eight ind_punch_l* units together cover every (level, max) pair of the call sites (ext2fs_punch_ind: (0,12), (1..3,1); recursion: (0..2,256)); (3,256) is included although unreachable",
              "blocksize 1024 (256 addresses per block; s_log_block_size consistent with fs->blocksize)",
@@ -35,8 +34,7 @@
  "enforce_rec": ["ind_punch"],
  "replace": ["check_zero_block"],
  "loop_contracts": true,
- "unwindset": {"c09_all_zero_1k.0": 257},
- "unwind_reason": "c09_all_zero_1k is the SPEC's all-zero test of a 1 KiB block: 256 words, constant; the real slot loop of ind_punch is closed by its in-place loop contract (anchor VERIF_INV_IND_PUNCH), the recursion by the contract itself (--enforce-contract-rec)",
+ "unwind_reason": "no unwinding: the real slot loop of ind_punch is closed by its in-place loop contract (anchor VERIF_INV_IND_PUNCH), the recursion by the contract itself (--enforce-contract-rec)",
  "functions": ["lib/ext2fs/punch.c:ind_punch"],
  "assumes": ["this unit: level == 0 and max == 256 (the image of a level-0 indirect block); the eight ind_punch_l* units together cover every (level, max) pair of the call sites (ext2fs_punch_ind: (0,12), (1..3,1); recursion: (0..2,256)); (3,256) is included although unreachable",
              "blocksize 1024 (256 addresses per block; s_log_block_size consistent with fs->blocksize)",
@@ -61,8 +59,7 @@
  "enforce_rec": ["ind_punch"],
  "replace": ["check_zero_block"],
  "loop_contracts": true,
- "unwindset": {"c09_all_zero_1k.0": 257},
- "unwind_reason": "c09_all_zero_1k is the SPEC's all-zero test of a 1 KiB block: 256 words, constant; the real slot loop of ind_punch is closed by its in-place loop contract (anchor VERIF_INV_IND_PUNCH), the recursion by the contract itself (--enforce-contract-rec)",
+ "unwind_reason": "no unwinding: the real slot loop of ind_punch is closed by its in-place loop contract (anchor VERIF_INV_IND_PUNCH), the recursion by the contract itself (--enforce-contract-rec)",
  "functions": ["lib/ext2fs/punch.c:ind_punch"],
  "assumes": ["this unit: level == 1 and max == 1 (the tree root slot i_block[12]); the eight ind_punch_l* units together cover every (level, max) pair of the call sites (ext2fs_punch_ind: (0,12), (1..3,1); recursion: (0..2,256)); (3,256) is included although unreachable",
              "blocksize 1024 (256 addresses per block; s_log_block_size consistent with fs->blocksize)",
@@ -87,8 +84,7 @@
  "enforce_rec": ["ind_punch"],
  "replace": ["check_zero_block"],
  "loop_contracts": true,
- "unwindset": {"c09_all_zero_1k.0": 257},
- "unwind_reason": "c09_all_zero_1k is the SPEC's all-zero test of a 1 KiB block: 256 words, constant; the real slot loop of ind_punch is closed by its in-place loop contract (anchor VERIF_INV_IND_PUNCH), the recursion by the contract itself (--enforce-contract-rec)",
+ "unwind_reason": "no unwinding: the real slot loop of ind_punch is closed by its in-place loop contract (anchor VERIF_INV_IND_PUNCH), the recursion by the contract itself (--enforce-contract-rec)",
  "functions": ["lib/ext2fs/punch.c:ind_punch"],
  "assumes": ["this unit: level == 1 and max == 256 (the image of a level-1 indirect block); the eight ind_punch_l* units together cover every (level, max) pair of the call sites (ext2fs_punch_ind: (0,12), (1..3,1); recursion: (0..2,256)); (3,256) is included although unreachable",
              "blocksize 1024 (256 addresses per block; s_log_block_size consistent with fs->blocksize)",
@@ -113,8 +109,7 @@
  "enforce_rec": ["ind_punch"],
  "replace": ["check_zero_block"],
  "loop_contracts": true,
- "unwindset": {"c09_all_zero_1k.0": 257},
- "unwind_reason": "c09_all_zero_1k is the SPEC's all-zero test of a 1 KiB block: 256 words, constant; the real slot loop of ind_punch is closed by its in-place loop contract (anchor VERIF_INV_IND_PUNCH), the recursion by the contract itself (--enforce-contract-rec)",
+ "unwind_reason": "no unwinding: the real slot loop of ind_punch is closed by its in-place loop contract (anchor VERIF_INV_IND_PUNCH), the recursion by the contract itself (--enforce-contract-rec)",
  "functions": ["lib/ext2fs/punch.c:ind_punch"],
  "assumes": ["this unit: level == 2 and max == 1 (the tree root slot i_block[13]); the eight ind_punch_l* units together cover every (level, max) pair of the call sites (ext2fs_punch_ind: (0,12), (1..3,1); recursion: (0..2,256)); (3,256) is included although unreachable",
              "blocksize 1024 (256 addresses per block; s_log_block_size consistent with fs->blocksize)",
@@ -139,8 +134,7 @@
  "enforce_rec": ["ind_punch"],
  "replace": ["check_zero_block"],
  "loop_contracts": true,
- "unwindset": {"c09_all_zero_1k.0": 257},
- "unwind_reason": "c09_all_zero_1k is the SPEC's all-zero test of a 1 KiB block: 256 words, constant; the real slot loop of ind_punch is closed by its in-place loop contract (anchor VERIF_INV_IND_PUNCH), the recursion by the contract itself (--enforce-contract-rec)",
+ "unwind_reason": "no unwinding: the real slot loop of ind_punch is closed by its in-place loop contract (anchor VERIF_INV_IND_PUNCH), the recursion by the contract itself (--enforce-contract-rec)",
  "functions": ["lib/ext2fs/punch.c:ind_punch"],
  "assumes": ["this unit: level == 2 and max == 256 (the image of a level-2 indirect block); the eight ind_punch_l* units together cover every (level, max) pair of the call sites (ext2fs_punch_ind: (0,12), (1..3,1); recursion: (0..2,256)); (3,256) is included although unreachable",
              "blocksize 1024 (256 addresses per block; s_log_block_size consistent with fs->blocksize)",
@@ -165,8 +159,7 @@
  "enforce_rec": ["ind_punch"],
  "replace": ["check_zero_block"],
  "loop_contracts": true,
- "unwindset": {"c09_all_zero_1k.0": 257},
- "unwind_reason": "c09_all_zero_1k is the SPEC's all-zero test of a 1 KiB block: 256 words, constant; the real slot loop of ind_punch is closed by its in-place loop contract (anchor VERIF_INV_IND_PUNCH), the recursion by the contract itself (--enforce-contract-rec)",
+ "unwind_reason": "no unwinding: the real slot loop of ind_punch is closed by its in-place loop contract (anchor VERIF_INV_IND_PUNCH), the recursion by the contract itself (--enforce-contract-rec)",
  "functions": ["lib/ext2fs/punch.c:ind_punch"],
  "assumes": ["this unit: level == 3 and max == 1 (the tree root slot i_block[14]); the eight ind_punch_l* units together cover every (level, max) pair of the call sites (ext2fs_punch_ind: (0,12), (1..3,1); recursion: (0..2,256)); (3,256) is included although unreachable",
              "blocksize 1024 (256 addresses per block; s_log_block_size consistent with fs->blocksize)",
@@ -191,8 +184,7 @@
  "enforce_rec": ["ind_punch"],
  "replace": ["check_zero_block"],
  "loop_contracts": true,
- "unwindset": {"c09_all_zero_1k.0": 257},
- "unwind_reason": "c09_all_zero_1k is the SPEC's all-zero test of a 1 KiB block: 256 words, constant; the real slot loop of ind_punch is closed by its in-place loop contract (anchor VERIF_INV_IND_PUNCH), the recursion by the contract itself (--enforce-contract-rec)",
+ "unwind_reason": "no unwinding: the real slot loop of ind_punch is closed by its in-place loop contract (anchor VERIF_INV_IND_PUNCH), the recursion by the contract itself (--enforce-contract-rec)",
  "functions": ["lib/ext2fs/punch.c:ind_punch"],
  "assumes": ["this unit: level == 3 and max == 256 (the image of a level-3 indirect block); the eight ind_punch_l* units together cover every (level, max) pair of the call sites (ext2fs_punch_ind: (0,12), (1..3,1); recursion: (0..2,256)); (3,256) is included although unreachable",
              "blocksize 1024 (256 addresses per block; s_log_block_size consistent with fs->blocksize)",
@@ -214,8 +206,8 @@
  "tier": "wip",
  "harness": "h_check_zero_block",
  "enforce": ["check_zero_block"],
- "unwindset": {"check_zero_block.0": 1025, "c09_all_zero_1k.0": 257},
- "unwind_reason": "blocksize is 1024 in this unit: the byte loop runs at most 1024 times, the spec's word loop 256 times; unwinding assertions on",
+ "unwindset": {"check_zero_block.0": 1025},
+ "unwind_reason": "blocksize is 1024 in this unit: the byte loop runs at most 1024 times (unwinding assertion on); the spec's all-zero test is a loop-free expression",
  "functions": ["lib/ext2fs/punch.c:check_zero_block"],
  "assumes": ["blocksize 1024; buffer of exactly 1024 bytes, 4-byte aligned view for the spec"],
  "native": false,
@@ -227,13 +219,15 @@
 /* ------------------------------------------------------------------ in-place loop contract of ind_punch's slot loop
  * (the repository only names the loop; the text lives here because it speaks about this unit's ghost path) */
 #define VERIF_INV_CHECK_ZERO_BLOCK
+/* frame, as typed lvalues (slice targets with object_upto/object_from exhaust the solver's memory): the array's `max`
+ * slots, and below block_buf one block per level still to descend (a level-0 call never touches block_buf) */
+#define PTGT max == 1: *p; max == (int)C09_NDIR: *(struct blk12 *)p; max == (int)C09_APB: *(struct blk1k *)p
+#define BTGT level == 1: *(struct blk1k *)block_buf; level == 2: *(struct blk2k *)block_buf; level == 3: *(struct blk3k *)block_buf
 #define LE(x) __CPROVER_loop_entry(x)
 #define P0 (__CPROVER_loop_entry(p))
 #define VERIF_GHOST_IND_PUNCH_ITER g_cur = i, g_lev = level
 #define VERIF_INV_IND_PUNCH \
-	__CPROVER_assigns(i, p, offset, freed, b, retval, GHOSTS, \
-			  __CPROVER_object_upto(p, (__CPROVER_size_t)max * sizeof(blk_t)); \
-			  level > 0: __CPROVER_object_from(block_buf)) \
+	__CPROVER_assigns(i, p, offset, freed, b, retval, GHOSTS; PTGT; BTGT) \
 	__CPROVER_loop_invariant(0 <= i && i <= max) \
 	__CPROVER_loop_invariant(p == P0 + i) \
 	__CPROVER_loop_invariant(offset == ((blk64_t)i << (C09_ABITS * level))) \
@@ -264,8 +258,7 @@ static errcode_t ind_punch(ext2_filsys fs, struct ext2_inode *inode, char *block
 	REQUIRES(level >= 0 && level <= 3 && (max == 1 || max == (int)C09_NDIR || max == (int)C09_APB))
 	REQUIRES(fs->blocksize == 1024 && fs->super->s_log_block_size == 0)
 	REQUIRES(PRE_RANGE(start, count))
-	ASSIGNS(GHOSTS, __CPROVER_object_upto(p, (__CPROVER_size_t)max * sizeof(blk_t));
-		level > 0: __CPROVER_object_from(block_buf))
+	ASSIGNS(GHOSTS; PTGT; BTGT)
 	/* success: the ghost slot of this array follows the punch specification for [start, start+count) */
 	ENSURES(RET != 0 || (int)G_K(level) >= max ||
 		SPECL(OLD, level, p[KI(level, max)], OLD(p[KI(level, max)]), start, start + count))
@@ -293,7 +286,9 @@ void h_ind_punch(void)
 	 * max == 256: the image of an indirect block in the caller's buffer. */
 	const int level = PUNCH_LEVEL, max = PUNCH_MAX;
 	ASSUME(PRE_RANGE(IN.start, IN.count));
-	char *mem = (char *)(unsigned int *)malloc(sizeof(unsigned int) * 4 * C09_APB);	/* word-typed object: slots are read as words */
+	/* word-typed object (slots are read as words), as many blocks as this level can use: the array itself when it is a
+	 * block image, plus one scratch block per level still to descend (at least one to have an object) */
+	char *mem = (char *)(unsigned int *)malloc(sizeof(unsigned int) * C09_APB * ((max == (int)C09_APB ? 1 : 0) + (level > 0 ? level : 1)));
 	ASSUME(mem != 0);
 	blk_t *p;
 	char *block_buf;
